@@ -4,7 +4,7 @@
 # the demonstration must pass on the pristine tree and fail with the patch.
 set -u
 id=$1; k=$2; target=$3; pkg=$4; run=$5; to=${6:-600s}
-wt=/tmp/mut/$id; out=/tmp/mut/$id-out/m$k
+wt=/tmp/mut/$id; out=/tmp/mut/$id${R:--out}/m$k
 export GOFLAGS=-mod=mod GOPROXY=off GOSUMDB=off GOTOOLCHAIN=local GOLOG_LOG_LEVEL=fatal
 cd $wt || exit 3
 git checkout -q -- . ; git clean -fdq
